@@ -108,4 +108,22 @@ def symbolic_set_elements_and_union_keys(b):
   })
 
 
+class Cb(object):
+  def m(self):
+    return 1
+
+
+def methods(o, p):
+  return (o.m == o.m, o.m is o.m, o.m == p.m, [x for x in [o.m] if x != o.m])
+
+
+@unit(P, target="contracts.self_engine:methods")
+def bound_methods_compare_like_python(b):
+  o, p = b.new(Cb), b.new(Cb)
+  return Case(methods, [o, p], raises={}, ensures={
+    "ok_equal_not_identical": lambda res: res[0] is True and res[1] is False and res[2] is False and res[3] == [],
+    "bad_identical": lambda res: res[1] is True,
+  })
+
+
 EXPECTED_REFUTED_EXC = {"exceptions_are_reported": "exc.ValueError"}
